@@ -605,4 +605,24 @@ def rule_g(prog, rep):
     core_write_operands(prog, rep, 'C02.g')
 
 
-RULES = [('C02.g', rule_g), ('C02.a', rule_a), ('C02.b', rule_b), ('C02.c', rule_c), ('C02.d', rule_d), ('C02.e', rule_e), ('C02.f', rule_f)]
+def rule_h(prog, rep):
+    rep.rule('C02.h', 'T3', "the client learns a lost race: the client's cset / cget / locked-update methods examine the server's verdict "
+             "(= C20.g restricted to these methods) - a CasVersionMismatch that is dropped on the way makes the loser of a race "
+             'believe its update was applied')
+    from . import c20
+
+    class Only(Proxy):
+        def ok(self, rid, inst, loc_='', detail=''):
+            if 'cset' in inst.lower() or 'cget' in inst.lower() or 'update' in inst.lower() or 'lock' in inst.lower():
+                super().ok(rid, inst, loc_, detail)
+
+        def violation(self, rid, inst, loc_='', detail='', key=None, expected=''):
+            if 'cset' in inst.lower() or 'cget' in inst.lower() or 'update' in inst.lower() or 'lock' in inst.lower():
+                super().violation(rid, inst, loc_, detail, key=key, expected=expected)
+
+        def floor(self, rid, found, minimum, what):
+            pass
+    c20.rule_g(prog, Only(rep, 'C02.h'))
+
+
+RULES = [('C02.h', rule_h), ('C02.g', rule_g), ('C02.a', rule_a), ('C02.b', rule_b), ('C02.c', rule_c), ('C02.d', rule_d), ('C02.e', rule_e), ('C02.f', rule_f)]
